@@ -64,10 +64,14 @@ class UsedQubitIndicesVisitor(Visitor):
         indices = defaultdict(set)
         # Note: This could be more elegant with a is_macro method on gates
         if isinstance(obj.gate_def, Macro):
-            context = context or {}
-            macro_context = {**context, **obj.parameters}
-            macro_body = obj.gate_def.body
-            return self.visit(macro_body, macro_context)
+            # Substitute the arguments of this call into the macro's body.
+            # Merely adding them to the context would confuse a parameter
+            # of this macro with an identically named parameter of the macro
+            # it is called from (or calls).
+            from .expand_macros import GateReplacer
+
+            macro_body = GateReplacer(obj.parameters, {}).visit(obj.gate_def)
+            return self.visit(macro_body, context=context)
         else:
             for param in obj.used_qubits:
                 if param is all:
